@@ -58,6 +58,9 @@ impl QueryLockManager {
             return lock;
         }
 
+        #[cfg(feature = "verif")]
+        qbice_verif_rt::point("lock_instance_miss");
+
         let lock_instance = OwnedLock(Arc::new(RwLock::new(())));
 
         self.hot.entry(*query_id, |x| match x {
